@@ -13,9 +13,9 @@ Tdim(c) == CASE c = "interval" -> 1 [] c \in {"triangle", "quadrilateral"} -> 2 
 \* element kinds (argument / coefficient spaces)
 Elems == {"P1", "P2", "P3", "DG0", "DG1", "vP1", "vP2", "symP1", "TH", "RT1", "N1", "BDM1", "RTxDG0",
           "bubble", "real", "quad", "RTCF1", "RTCE1"}
-Scalar(e) == e \in {"P1", "P2", "P3", "DG0", "DG1", "bubble", "real", "quad"}
+Scalar(e) == e \in {"P1", "P2", "P3", "DG0", "DG1", "bubble", "real", "quad", "iso"}
 Piola(e) == e \in {"RT1", "N1", "BDM1", "RTxDG0", "RTCF1", "RTCE1"}
-Deg(e) == CASE e \in {"P1", "DG1", "vP1", "symP1", "RT1", "N1", "BDM1", "RTxDG0", "RTCF1", "RTCE1"} -> 1
+Deg(e) == CASE e \in {"P1", "DG1", "vP1", "symP1", "RT1", "N1", "BDM1", "RTxDG0", "RTCF1", "RTCE1", "iso"} -> 1
             [] e \in {"P2", "vP2", "TH"} -> 2 [] e = "P3" -> 3 [] e = "bubble" -> 3 [] e = "quad" -> 2 [] OTHER -> 0
 
 \* integrand shapes; rank is implied
@@ -46,6 +46,8 @@ Valid(c) ==
   /\ (c.elem \in {"RT1", "N1", "BDM1", "RTxDG0", "TH", "bubble"} => c.cell \in {"triangle", "tetrahedron"})
   /\ (c.elem \in {"RTCF1", "RTCE1"} => c.cell = "quadrilateral" /\ c.term \in {"mass", "coefmass", "load", "energy", "divdiv", "curlcurl", "xmass"}
                                         /\ (c.elem = "RTCF1" => c.term # "curlcurl") /\ (c.elem = "RTCE1" => c.term # "divdiv"))
+  \* (macro elements such as "iso" are not in the space: basix tabulates their derivatives on the sub-cell
+  \*  boundaries, where the rational rules' points lie, with values that do not reconstruct as small rationals)
   /\ (c.elem = "symP1" => Tdim(c.cell) >= 2)
   /\ (c.elem = "P3" => c.cell \in {"interval", "triangle"})
   /\ (c.elem = "quad" => c.cell = "triangle" /\ c.rule = "exact" /\ c.term \in {"mass", "coefmass", "load"})
